@@ -154,7 +154,10 @@ def fake_sampler_cli(world):
                     s.add_clause(c)
                 sat, sol = s.solve()
                 if not sat:
-                    return CompletedProcessLike(command, 20, b"s UNSATISFIABLE\n")
+                    # what the real binary does on UNSAT is not observable here; be as lenient as the library's
+                    # wrapper allows: sample file exists (empty) and stdout carries the message the wrapper looks for
+                    w.fs.write(opts["samplefile"], "")
+                    return CompletedProcessLike(command, 20, b"s UNSATISFIABLE\nc The input formula is unsatisfiable.\n")
                 # real cmsgen writes full models, one per line, terminated by 0
                 lines.append(" ".join(str(v if (v < len(sol) and sol[v]) else -v) for v in range(1, nvars + 1)) + " 0")
             w.fs.write(opts["samplefile"], "\n".join(lines) + "\n")
